@@ -45,6 +45,8 @@ def cases(tier, seed):
         for lens in itertools.product((0, 1, 3), repeat=k):
             for tail in (0, 1, 2):
                 out.append({"h": "H01c", "lens": list(lens), "tail": tail})
+            if k <= 2:
+                out.append({"h": "H01c", "lens": list(lens), "tail": 0, "twice": True})
     return out
 
 
@@ -145,7 +147,12 @@ def h01c(E, M, case):
         data += wire.someip_bytes(f["service"], f["method"], f["client"], f["session"], f["iface"], mt, 0, f["payload"])
     data += [E.int("tail%d" % i, 0, 255) for i in range(case["tail"])]
     mc = E.flag("multicast")
-    prot.datagram_received(mk(E, data), P, mc)
+    buf = mk(E, data)
+    prot.datagram_received(buf, P, mc)
+    if case.get("twice"):
+        # a sender may emit identical bytes again (e.g. unchanged cyclic notification)
+        prot.datagram_received(buf, P, mc)
+        sent = sent + sent
     E.observe(len(got))
     E.require(len(got) == len(sent), "every message of the datagram is delivered (a garbage tail after them is dropped)", {"delivered": len(got), "sent": len(sent)})
     for (m, addr, mcast), f in zip(got, sent):
